@@ -95,6 +95,35 @@ fn make_substore(store: &mut AnnotationStore) -> Result<(), StamError> {
     Ok(())
 }
 
+/// C18: change the stand-off text file of a resource between writing and reading.
+/// edit = {has, res (rank among live resources), kind sub|ins|del, pos, c (abstract character)}
+fn edit_text_file(store: &AnnotationStore, dir: &Path, edit: &Value) {
+    if !edit["has"].as_bool().unwrap_or(false) {
+        return;
+    }
+    let rank = edit["res"].as_i64().unwrap_or(0) as usize;
+    let res = match store.resources().nth(rank.saturating_sub(1)) {
+        Some(r) => r,
+        None => return,
+    };
+    let fname = match res.as_ref().filename() {
+        Some(f) => dir.join(Path::new(f).file_name().unwrap()),
+        None => return, // not stand-off: nothing to edit outside the store
+    };
+    let mut chars: Vec<char> = std::fs::read_to_string(&fname).unwrap_or_default().chars().collect();
+    let pos = edit["pos"].as_i64().unwrap_or(0) as usize;
+    let c = crate::concretise::char_of(edit["c"].as_i64().unwrap_or(11));
+    match edit["kind"].as_str().unwrap_or("") {
+        "sub" if pos < chars.len() => chars[pos] = c,
+        "ins" if pos <= chars.len() => chars.insert(pos, c),
+        "del" if pos < chars.len() => {
+            chars.remove(pos);
+        }
+        _ => {}
+    }
+    std::fs::write(&fname, chars.into_iter().collect::<String>()).expect("harness: edit text file");
+}
+
 /// All round trips of one behaviour use one directory and one file name: stand-off files that did not change are
 /// (by design) not rewritten, so they must stay where they are for the next load.
 fn behaviour_dir(ctx: &mut Ctx) -> PathBuf {
@@ -135,6 +164,7 @@ pub fn roundtrip(ctx: &mut Ctx, a: &Value) -> (String, i64) {
                     make_standoff(&mut ctx.store, lay);
                 }
                 ctx.store.save()?;
+                edit_text_file(&ctx.store, &d1, &a["edit"]);
                 let dg1 = digest_dir(&d1);
                 let loaded = AnnotationStore::from_file(&path, crate::store_config().0)?;
                 // write the reloaded store again (same place) and compare what is on disk
